@@ -309,64 +309,69 @@ func Lexical() map[string][]byte {
 	}
 	big := strings.Repeat("a", 64*1024)
 	m := map[string][]byte{
-		"empty":            {},
-		"space":            []byte(" \n\t"),
-		"bom":              append([]byte{0xEF, 0xBB, 0xBF}, `{"type":"text/plain","content":"x"}`...),
-		"nul":              {0},
-		"nul-in-string":    []byte("{\"type\":\"text/plain\",\"content\":\"a\x00b\"}"),
-		"invalid-utf8":     []byte("{\"type\":\"text/plain\",\"content\":\"a\xff\xfeb\",\"id\":\"\xc3\"}"),
-		"lone-surrogate":   []byte(`{"type":"text/plain","content":"\ud800","id":"\udc00x"}`),
-		"surrogate-pair":   []byte(`{"type":"text/plain","content":"😀"}`),
-		"bad-escape":       []byte(`{"type":"text/plain","content":"\q"}`),
-		"1e400":            []byte(`{"type":"application/json","content":{"n":1e400}}`),
-		"1e400-total":      []byte(`{"type":"application/vnd.lime.collection+json","content":{"itemType":"text/plain","total":1e400,"items":[]}}`),
-		"big-int":          []byte(`{"type":"application/json","content":{"n":123456789012345678901234567890}}`),
-		"big-int-code":     []byte(`{"event":"failed","reason":{"code":123456789012345678901234567890}}`),
-		"neg-zero":         []byte(`{"type":"application/json","content":{"n":-0}}`),
-		"leading-zero":     []byte(`{"type":"application/json","content":{"n":01}}`),
-		"deep-array":       deep("[", "]", 10000, ""),
-		"deep-array-9999":  deep("[", "]", 9999, ""),
-		"deep-object":      deep(`{"a":`, "}", 10000, "1"),
-		"deep-content":     []byte(`{"type":"application/json","content":` + string(deep(`{"a":`, "}", 5000, "1")) + `}`),
-		"deep-container":   []byte(`{"type":"application/vnd.lime.container+json","content":` + string(deep(`{"type":"application/vnd.lime.container+json","value":`, "}", 2000, `{"type":"text/plain","value":"x"}`)) + `}`),
-		"deep-unclosed":    []byte(strings.Repeat("[", 10000)),
-		"big-string":       []byte(`{"type":"text/plain","content":"` + big + `"}`),
-		"big-id":           []byte(`{"id":"` + big + `","event":"accepted"}`),
-		"big-key":          []byte(`{"` + big + `":1,"event":"accepted"}`),
-		"big-media-type":   []byte(`{"type":"` + big + `/` + big + `+json","content":{}}`),
-		"many-slashes":     []byte(`{"from":"////@@@@////","to":"@/@/@","pp":"/","event":"accepted"}`),
-		"many-plus":        []byte(`{"type":"++/++","content":"x"}`),
-		"type-slash-only":  []byte(`{"type":"/","content":"x"}`),
-		"type-slash-plus":  []byte(`{"type":"/+","content":"x"}`),
-		"type-plus-json":   []byte(`{"type":"/+json","content":{}}`),
-		"trailing-comma":   []byte(`{"event":"accepted",}`),
-		"single-quotes":    []byte(`{'event':'accepted'}`),
-		"comment":          []byte(`{"event":"accepted"/*c*/}`),
-		"top-array":        []byte(`[{"event":"accepted"}]`),
-		"top-string":       []byte(`"event"`),
-		"top-number":       []byte(`1`),
-		"top-null":         []byte(`null`),
-		"crlf":             []byte("{\"event\":\"accepted\"}\r\n{\"event\":\"failed\"}\r\n"),
-		"upper-keys":       []byte(`{"EVENT":"accepted","ID":"1"}`),
-		"uri-bad-escape":   []byte(`{"method":"get","uri":"%zz"}`),
-		"uri-colon":        []byte(`{"method":"get","uri":":"}`),
-		"uri-http":         []byte(`{"method":"get","uri":"http://x/y"}`),
-		"uri-lime-noauth":  []byte(`{"method":"get","uri":"lime:"}`),
-		"uri-ctl":          []byte("{\"method\":\"get\",\"uri\":\"/a\\u0000b\"}"),
-		"uri-space":        []byte(`{"method":"get","uri":"a b"}`),
-		"uri-empty":        []byte(`{"method":"get","uri":""}`),
-		"status-empty":     []byte(`{"method":"get","status":""}`),
-		"status-bogus":     []byte(`{"method":"get","status":"bogus"}`),
-		"method-only":      []byte(`{"method":"get"}`),
-		"state-empty":      []byte(`{"state":""}`),
-		"event-empty":      []byte(`{"event":""}`),
-		"scheme-empty":     []byte(`{"state":"new","scheme":"","authentication":{}}`),
-		"auth-null":        []byte(`{"state":"new","scheme":"plain","authentication":null}`),
-		"auth-string":      []byte(`{"state":"new","scheme":"plain","authentication":"x"}`),
-		"auth-array":       []byte(`{"state":"new","scheme":"guest","authentication":[]}`),
-		"content-null":     []byte(`{"type":"text/plain","content":null}`),
-		"container-empty":  []byte(`{"type":"application/vnd.lime.container+json","content":{}}`),
-		"collection-empty": []byte(`{"type":"application/vnd.lime.collection+json","content":{}}`),
+		"empty":                {},
+		"space":                []byte(" \n\t"),
+		"bom":                  append([]byte{0xEF, 0xBB, 0xBF}, `{"type":"text/plain","content":"x"}`...),
+		"nul":                  {0},
+		"nul-in-string":        []byte("{\"type\":\"text/plain\",\"content\":\"a\x00b\"}"),
+		"invalid-utf8":         []byte("{\"type\":\"text/plain\",\"content\":\"a\xff\xfeb\",\"id\":\"\xc3\"}"),
+		"lone-surrogate":       []byte(`{"type":"text/plain","content":"\ud800","id":"\udc00x"}`),
+		"surrogate-pair":       []byte(`{"type":"text/plain","content":"😀"}`),
+		"bad-escape":           []byte(`{"type":"text/plain","content":"\q"}`),
+		"1e400":                []byte(`{"type":"application/json","content":{"n":1e400}}`),
+		"1e400-total":          []byte(`{"type":"application/vnd.lime.collection+json","content":{"itemType":"text/plain","total":1e400,"items":[]}}`),
+		"big-int":              []byte(`{"type":"application/json","content":{"n":123456789012345678901234567890}}`),
+		"big-int-code":         []byte(`{"event":"failed","reason":{"code":123456789012345678901234567890}}`),
+		"neg-zero":             []byte(`{"type":"application/json","content":{"n":-0}}`),
+		"leading-zero":         []byte(`{"type":"application/json","content":{"n":01}}`),
+		"deep-array":           deep("[", "]", 10000, ""),
+		"deep-array-9999":      deep("[", "]", 9999, ""),
+		"deep-object":          deep(`{"a":`, "}", 10000, "1"),
+		"deep-content":         []byte(`{"type":"application/json","content":` + string(deep(`{"a":`, "}", 5000, "1")) + `}`),
+		"deep-container":       []byte(`{"type":"application/vnd.lime.container+json","content":` + string(deep(`{"type":"application/vnd.lime.container+json","value":`, "}", 2000, `{"type":"text/plain","value":"x"}`)) + `}`),
+		"deep-unclosed":        []byte(strings.Repeat("[", 10000)),
+		"big-string":           []byte(`{"type":"text/plain","content":"` + big + `"}`),
+		"big-id":               []byte(`{"id":"` + big + `","event":"accepted"}`),
+		"big-key":              []byte(`{"` + big + `":1,"event":"accepted"}`),
+		"big-media-type":       []byte(`{"type":"` + big + `/` + big + `+json","content":{}}`),
+		"many-slashes":         []byte(`{"from":"////@@@@////","to":"@/@/@","pp":"/","event":"accepted"}`),
+		"many-plus":            []byte(`{"type":"++/++","content":"x"}`),
+		"type-slash-only":      []byte(`{"type":"/","content":"x"}`),
+		"type-slash-plus":      []byte(`{"type":"/+","content":"x"}`),
+		"type-plus-json":       []byte(`{"type":"/+json","content":{}}`),
+		"trailing-comma":       []byte(`{"event":"accepted",}`),
+		"single-quotes":        []byte(`{'event':'accepted'}`),
+		"comment":              []byte(`{"event":"accepted"/*c*/}`),
+		"top-array":            []byte(`[{"event":"accepted"}]`),
+		"top-string":           []byte(`"event"`),
+		"top-number":           []byte(`1`),
+		"top-null":             []byte(`null`),
+		"crlf":                 []byte("{\"event\":\"accepted\"}\r\n{\"event\":\"failed\"}\r\n"),
+		"upper-keys":           []byte(`{"EVENT":"accepted","ID":"1"}`),
+		"uri-bad-escape":       []byte(`{"method":"get","uri":"%zz"}`),
+		"uri-colon":            []byte(`{"method":"get","uri":":"}`),
+		"uri-http":             []byte(`{"method":"get","uri":"http://x/y"}`),
+		"uri-lime-noauth":      []byte(`{"method":"get","uri":"lime:"}`),
+		"uri-ctl":              []byte("{\"method\":\"get\",\"uri\":\"/a\\u0000b\"}"),
+		"uri-space":            []byte(`{"method":"get","uri":"a b"}`),
+		"uri-empty":            []byte(`{"method":"get","uri":""}`),
+		"status-empty":         []byte(`{"method":"get","status":""}`),
+		"status-bogus":         []byte(`{"method":"get","status":"bogus"}`),
+		"method-only":          []byte(`{"method":"get"}`),
+		"state-empty":          []byte(`{"state":""}`),
+		"event-empty":          []byte(`{"event":""}`),
+		"scheme-empty":         []byte(`{"state":"new","scheme":"","authentication":{}}`),
+		"auth-null":            []byte(`{"state":"new","scheme":"plain","authentication":null}`),
+		"auth-string":          []byte(`{"state":"new","scheme":"plain","authentication":"x"}`),
+		"auth-array":           []byte(`{"state":"new","scheme":"guest","authentication":[]}`),
+		"content-null":         []byte(`{"type":"text/plain","content":null}`),
+		"container-no-value":   []byte(`{"type":"application/vnd.lime.container+json","content":{"type":"text/plain"}}`),
+		"container-null-value": []byte(`{"type":"application/vnd.lime.container+json","content":{"type":"text/plain","value":null}}`),
+		"collection-null-item": []byte(`{"type":"application/vnd.lime.collection+json","content":{"itemType":"text/plain","items":[null]}}`),
+		"receipt-null-event":   []byte(`{"type":"application/vnd.lime.receipt+json","content":{"events":[null]}}`),
+		"delegation-empty-msg": []byte(`{"type":"application/vnd.lime.delegation+json","content":{"Messages":[{}]}}`),
+		"container-empty":      []byte(`{"type":"application/vnd.lime.container+json","content":{}}`),
+		"collection-empty":     []byte(`{"type":"application/vnd.lime.collection+json","content":{}}`),
 	}
 	return m
 }
